@@ -4,13 +4,15 @@ CONSTANTS
   N = 3
   Byz <- NoByz
   Nodes <- Nodes3
-  Blk0 <- NoBlocks
+  Blk0s <- NoBlocks
   MaxBlocks = 4
   MaxRestarts = 1
   ByzMode = "branch"
   ByzRanges <- R123
+  Runs = FALSE
+  BadKinds <- OnlyOk
   Fixes <- AllFixes
 VIEW view
-INVARIANTS TypeOK LibOnMain ConfirmsOnMain Agreement HonestConfirms
-PROPERTIES LibMonotone Final NoForkBelowLib LibQuorum RestoreEqualsRecompute
+INVARIANTS TypeOK LibOnMain ConfirmsOnMain ProposalsOnMain StatusBestIsBest Agreement HonestConfirms
+PROPERTIES LibMonotone Final NoForkBelowLib LibQuorum RestoreEqualsRecompute AfterAbandonedReorgStatusMatchesMainChain
 CHECK_DEADLOCK FALSE
